@@ -47,6 +47,10 @@ M = [  # (name, file, old, new, property)
     ('load-memo-after-sign', 'bdd.py', "        umap[abs(u)] = r\n        if u < 0:\n            r = -r\n        return r", "        if u < 0:\n            r = -r\n        umap[abs(u)] = r\n        return r", 'C12'),
     ('arity-binary-allows-w', '_utils.py', "        if v is None:\n            raise ValueError(\n                '`v is None`')\n        if w is not None:\n            raise ValueError(\n                f'`w is not None`, but: {w}')\n    elif op in operators['ternary']:", "        if v is None:\n            raise ValueError(\n                '`v is None`')\n    elif op in operators['ternary']:", 'C17'),
     ('init-terminal-resets-count', 'bdd.py', "        self._ref.setdefault(u, 1)", "        self._ref[u] = 1", 'C08'),
+    ('harmless-ite-high-first', 'bdd.py', "        p = self._ite(g0, u0, v0)\n        q = self._ite(g1, u1, v1)\n", "        q = self._ite(g1, u1, v1)\n        p = self._ite(g0, u0, v0)\n", 'C01'),
+    ('harmless-add_var-inverse-first', 'bdd.py', "        self.vars[var] = level\n        self._level_to_var[level] = var\n", "        self._level_to_var[level] = var\n        self.vars[var] = level\n", 'C14'),
+    ('harmless-foa-incref-order', 'bdd.py', "        self.incref(v)\n        self.incref(w)\n        return r * u", "        self.incref(w)\n        self.incref(v)\n        return r * u", 'C06'),
+    ('harmless-satlen-high-first', 'bdd.py', "        nv = self._sat_len(v, map_level, d)\n        nw = self._sat_len(w, map_level, d)\n", "        nw = self._sat_len(w, map_level, d)\n        nv = self._sat_len(v, map_level, d)\n", 'C10'),
     ('harmless-rename-local', 'bdd.py', "        g0, g1 = self._top_cofactor(g, z)\n        u0, u1 = self._top_cofactor(u, z)\n        v0, v1 = self._top_cofactor(v, z)\n        p = self._ite(g0, u0, v0)\n        q = self._ite(g1, u1, v1)\n        w = self.find_or_add(z, p, q)", "        vlo, vhi = self._top_cofactor(v, z)\n        glo, ghi = self._top_cofactor(g, z)\n        ulo, uhi = self._top_cofactor(u, z)\n        lo_branch = self._ite(glo, ulo, vlo)\n        q = self._ite(ghi, uhi, vhi)\n        w = self.find_or_add(z, lo_branch, q)", 'C01'),
     ('harmless-inline-temp', 'bdd.py', "        t = (i, v, w)\n        u = self._pred.get(t)\n        if u is not None:\n            return r * u", "        t = (i, v, w)\n        u = self._pred.get((i, v, w))\n        if u is not None:\n            return r * u", 'C02'),
 ]
